@@ -6,7 +6,7 @@ def M(prop, name, file, old, new, **kw):
     MUTANTS.append(dict(prop=prop, name=prop + "-" + name, file=file, old=old, new=new, **kw))
 
 # ---- C01 rank
-M("C01", "rank128-63", "bitmap/rank.go", "n := rindex[(i+64)>>7]", "n := rindex[(i+63)>>7]")
+M("C01", "rank128-63", "bitmap/rank.go", "n := rindex[(uint32(i)+64)>>7]", "n := rindex[(uint32(i)+63)>>7]")
 M("C01", "rank128-drop-atright", "bitmap/rank.go", "c1 := n - atRight*cnt1 + int32(bits.OnesCount64(w&Mask[j]))", "c1 := n - 0*atRight*cnt1 + int32(bits.OnesCount64(w&Mask[j]))")
 M("C01", "rank64-maskupto", "bitmap/rank.go", "c1 := n + int32(bits.OnesCount64(w&Mask[j]))\n\treturn c1, int32(w>>uint(j)) & 1\n}\n\n// Tip", "c1 := n + int32(bits.OnesCount64(w&MaskUpto[j&63]))\n\treturn c1, int32(w>>uint(j)) & 1\n}\n\n// Tip")
 M("C01", "index128-parity", "bitmap/rank.go", "if len(words)&1 == 0 {", "if len(words)&1 == 1 {")
@@ -21,8 +21,8 @@ M("C20", "nilptr-as-pointee", "size/sizeof.go", "\t\tif p == nil {\n\t\t\tsum = 
 M("C20", "uint-revert", "size/sizeof.go", "reflect.Int, reflect.Uint, reflect.Uintptr:", "reflect.Int, reflect.Uint:")
 # ---- C11
 M("C11", "span-39", "bitmap/fromstr32.go", "uint(40-spanSize)", "uint(39-spanSize)")
-M("C11", "tobyte-round", "bitmap/fromstr32.go", "toByte := (tobit + 7) >> 3", "toByte := (tobit + 6) >> 3")
-M("C11", "clamp-removed", "bitmap/fromstr32.go", "\tif blen > size {\n\t\tblen = size\n\t}\n", "")
+M("C11", "tobyte-round", "bitmap/fromstr32.go", "toByte := (int64(tobit) + 7) >> 3", "toByte := (int64(tobit) + 6) >> 3")
+M("C11", "clamp-removed", "bitmap/fromstr32.go", "\tif blen > int64(size) {\n\t\tblen = int64(size)\n\t}\n", "")
 M("C11", "blen-le", "bitmap/fromstr32.go", "if blen <= 0 {", "if blen < 0 {", expect="equivalent")  # blen==0 falls through to (0, 0) anyway
 M("C11", "pathsof-revert", "bmtree/newpath.go", "if !dedup || i == 0 || p != prev {", "if !dedup || i < 0 || p != prev {")
 M("C11", "newpath-shift", "bmtree/newpath.go", "<< uint(height-length))", "<< uint(height-length+1))", expect="caught")
@@ -67,7 +67,7 @@ M("C12", "extend-gt", "bitmap/builder.go", "if bitEnd >= size {", "if bitEnd > s
 M("C12", "safeget-gt", "bitmap/get.go", "func SafeGet(bm []uint64, i int32) uint64 {\n\twordI := i >> 6\n\tbitI := i & 63\n\tif wordI < 0 || wordI >= int32(len(bm)) {", "func SafeGet(bm []uint64, i int32) uint64 {\n\twordI := i >> 6\n\tbitI := i & 63\n\tif wordI < 0 || wordI > int32(len(bm)) {")
 M("C12", "ofmany-base", "bitmap/ofmany.go", "\t\tbase += sizes[i]\n", "\t\tbase += sizes[i]\n\t\tif i == 3 {\n\t\t\tbase++\n\t\t}\n")
 M("C12", "builder-set-offset", "bitmap/builder.go", "if b.Offset <= bitPosition {", "if b.Offset < bitPosition {")
-M("C12", "toarray-skip63", "bitmap/toarray.go", "for i := int32(0); i < l; i++ {", "for i := int32(0); i < l-1; i++ {")
+M("C12", "toarray-skip63", "bitmap/toarray.go", "for i := 0; i < l; i++ {", "for i := 0; i < l-1; i++ {")
 # ---- C08
 M("C08", "fromstr-shift", "bitword/bitword.go", "(b >> uint(8-w.width*j-w.width)) & w.wordMask", "(b >> uint(7-w.width*j-w.width+1)) & w.wordMask", expect="equivalent")
 M("C08", "get-8-end", "bitword/bitword.go", "return (word >> uint(7-end)) & w.wordMask", "return (word >> uint(8-end)) & w.wordMask")
@@ -276,3 +276,12 @@ _lz_sel = [
     ("bitmap/select.go", "func IndexSelect32R64(words []uint64) ([]int32, []int32) {\n", "func IndexSelect32R64(words []uint64) ([]int32, []int32) {\n\tselOnce.Do(initSelectLookup)\n"),
 ]
 MUTANTS.append(dict(prop="C02", name="C02-lz-select-lookup-built-by-index-builders-only", edits=_lz_sel))
+
+# ---- TOP: each of the six int32-overflow repairs of session 3 undone again (the families at the top of the int32 domain
+# must report them as they did on the unrepaired tree)
+M("C09", "top-new-tobyte-int32", "bitstr/bitstr.go", "toByte := int32((int64(toBit) + 7) >> 3)", "toByte := (toBit + 7) >> 3")
+M("C01", "top-rank128-i-plus-64-int32", "bitmap/rank.go", "n := rindex[(uint32(i)+64)>>7]", "n := rindex[(i+64)>>7]")
+M("C11", "top-fromstr32-tobyte-int32", "bitmap/fromstr32.go", "toByte := (int64(tobit) + 7) >> 3", "toByte := int64((tobit + 7) >> 3)")
+M("C14", "top-getw-i-times-w-int32", "bitmap/get.go", "j := int64(i) * int64(w)", "j := int64(i * w)")
+M("C12", "top-of-last-plus-1-int32", "bitmap/of.go", "max := int64(bitPositions[len(bitPositions)-1]) + 1", "max := int64(bitPositions[len(bitPositions)-1] + 1)")
+M("C12", "top-toarray-bound-int32", "bitmap/toarray.go", "l := len(words) * 64", "l := int(int32(len(words) * 64))")
